@@ -42,27 +42,56 @@ static std::string NumStr(double x)
 	return buf;
 }
 
+// Compact forms for LARGE values (both directions, same rules in ocaml/ops_ps.ml and vlib/p_c14.py):
+//   R<n>x<hex>  string of n bytes: <hex> repeated cyclically       (printed for strings > 64 bytes with a period <= 8)
+//   G<n>(v)     array of n copies of v                               (printed for arrays > 16 elements, all equal)
+//   K<n>(v)     dictionary k000000..k<n-1> -> v                      (printed for such dictionaries > 16 entries)
+//   W<k>(v)     v inside k nested arrays, V<k>(v) v inside k nested dictionaries {"k": ..}   (input only)
+static std::string CanonStr(const std::string& s)
+{
+	if (s.size() > 64) {
+		for (size_t p = 1; p <= 8; p++) {
+			bool ok = true;
+			for (size_t i = p; i < s.size(); i++) if (s[i] != s[i - p]) { ok = false; break; }
+			if (ok) return "R" + std::to_string(s.size()) + "x" + HexEnc(s.substr(0, p));
+		}
+	}
+	return "S" + HexEnc(s);
+}
+
 static std::string Canon(const Value& v)
 {
 	if (v.GetType() == ValueEmpty) return "N";
 	if (v.IsBoolean()) return v.ToBool() ? "T" : "F";
 	if (v.IsNumber()) return "D" + NumStr(v);
-	if (v.IsString()) return "S" + HexEnc(String(v).GetData());
+	if (v.IsString()) return CanonStr(String(v).GetData());
 	Object::Ptr o = v;
 	Array::Ptr arr = dynamic_pointer_cast<Array>(o);
 	if (arr) {
-		std::string r = "A(";
 		ObjectLock olock(arr);
-		bool first = true;
-		for (const Value& x : arr) { if (!first) r += ","; first = false; r += Canon(x); }
+		std::vector<std::string> items;
+		bool same = true;
+		for (const Value& x : arr) { items.push_back(Canon(x)); if (items.back() != items.front()) same = false; }
+		if (items.size() > 16 && same) return "G" + std::to_string(items.size()) + "(" + items.front() + ")";
+		std::string r = "A(";
+		for (size_t i = 0; i < items.size(); i++) { if (i) r += ","; r += items[i]; }
 		return r + ")";
 	}
 	Dictionary::Ptr d = dynamic_pointer_cast<Dictionary>(o);
 	if (d) {
-		std::string r = "M(";
 		ObjectLock olock(d);
-		bool first = true;
-		for (const auto& kv : d) { if (!first) r += ","; first = false; r += HexEnc(kv.first.GetData()) + ":" + Canon(kv.second); }
+		std::vector<std::pair<std::string, std::string>> items;
+		bool same = true;
+		size_t idx = 0;
+		char kb[16];
+		for (const auto& kv : d) {
+			items.emplace_back(kv.first.GetData(), Canon(kv.second));
+			snprintf(kb, sizeof kb, "k%06zu", idx++);
+			if (items.back().second != items.front().second || items.back().first != kb) same = false;
+		}
+		if (items.size() > 16 && same) return "K" + std::to_string(items.size()) + "(" + items.front().second + ")";
+		std::string r = "M(";
+		for (size_t i = 0; i < items.size(); i++) { if (i) r += ","; r += HexEnc(items[i].first) + ":" + items[i].second; }
 		return r + ")";
 	}
 	return "O" + HexEnc(o->GetReflectionType()->GetName().GetData());
@@ -72,12 +101,20 @@ static Value ParseVal(const std::string& s, size_t& i)
 {
 	char c = s.at(i++);
 	auto tok = [&]() { size_t j = i; while (j < s.size() && s[j] != ',' && s[j] != ')' && s[j] != ':') j++; std::string t = s.substr(i, j - i); i = j; return t; };
+	auto cnt = [&]() { size_t j = i; while (j < s.size() && isdigit((unsigned char)s[j])) j++; size_t n = std::stoul(s.substr(i, j - i)); i = j; return n; };
 	switch (c) {
 	case 'N': return Empty;
 	case 'T': return true;
 	case 'F': return false;
 	case 'D': return strtod(tok().c_str(), nullptr);
 	case 'S': return String(HexDec(tok()));
+	case 'R': {
+		size_t n = cnt(); i++; // x
+		std::string pat = HexDec(tok()), r;
+		r.reserve(n);
+		while (r.size() < n) r.append(pat, 0, std::min(pat.size(), n - r.size()));
+		return String(r);
+	}
 	case 'A': {
 		ArrayData items; i++; // (
 		while (s.at(i) != ')') { items.push_back(ParseVal(s, i)); if (s.at(i) == ',') i++; }
@@ -90,17 +127,35 @@ static Value ParseVal(const std::string& s, size_t& i)
 		i++;
 		return d;
 	}
+	case 'G': case 'K': case 'W': case 'V': {
+		size_t n = cnt(); i++; // (
+		Value x = ParseVal(s, i);
+		i++; // )
+		if (c == 'G') { ArrayData items; for (size_t k = 0; k < n; k++) items.push_back(x.IsObject() ? x.Clone() : x); return new Array(std::move(items)); }
+		if (c == 'K') { Dictionary::Ptr d = new Dictionary(); char kb[16]; for (size_t k = 0; k < n; k++) { snprintf(kb, sizeof kb, "k%06zu", k); d->Set(kb, x.IsObject() ? x.Clone() : x); } return d; }
+		for (size_t k = 0; k < n; k++) {
+			if (c == 'W') x = new Array({ x });
+			else { Dictionary::Ptr d = new Dictionary(); d->Set("k", x); x = d; }
+		}
+		return x;
+	}
 	}
 	throw std::runtime_error("bad value syntax");
 }
 static Value ParseVal(const std::string& s) { size_t i = 0; return ParseVal(s, i); }
+// a string argument: hex, or the compact form R<n>x<hex>
+static std::string StrArg(const std::string& s) { return (!s.empty() && s[0] == 'R') ? std::string(String(ParseVal(s)).GetData()) : HexDec(s); }
 
 // ------------------------------------------------------------------ fixture
+// A population of 1..n hosts ("ps<case>", "ps<case>x1", ...); l_H is object 0 (+ optional service "s" on it).
 static bool l_Init = false;
+static std::vector<Host::Ptr> l_Hs;
 static Host::Ptr l_H;
 static Service::Ptr l_S;
 static bool l_WithSvc = false;
-static Value l_Vars0, l_Notes0; static double l_Ci0 = 300;
+static bool l_Multi = false;               // print obj=<i> (population scripts)
+static size_t l_N = 1;
+static std::vector<Value> l_Vars0, l_Notes0; static std::vector<double> l_Ci0;
 static std::vector<std::string> l_Slots;   // slot names set in this case, in first-set order
 
 static void InitOnce()
@@ -121,70 +176,103 @@ static void RemoveObject(const ConfigObject::Ptr& obj)
 	if (item) item->Unregister();
 }
 
-static std::string HostName() { return "ps" + std::to_string(CaseId()); }
+static std::string HostName(size_t i = 0) { return "ps" + std::to_string(CaseId()) + (i ? "x" + std::to_string(i) : ""); }
 
 static void RemoveAll()
 {
 	if (l_S) RemoveObject(l_S);
-	if (l_H) { for (const Service::Ptr& s : l_H->GetServices()) RemoveObject(s); RemoveObject(l_H); }
-	l_S = nullptr; l_H = nullptr;
+	for (const Host::Ptr& h : l_Hs) { if (!h) continue; for (const Service::Ptr& sv : h->GetServices()) RemoveObject(sv); RemoveObject(h); }
+	l_S = nullptr; l_H = nullptr; l_Hs.clear();
+}
+
+static void SetPopulation(size_t n)
+{
+	l_N = n;
+	l_Vars0.assign(n, Value(Empty)); l_Notes0.assign(n, Value(String(""))); l_Ci0.assign(n, 300);
 }
 
 static void Create()
 {
 	InitOnce();
 	std::ostringstream c;
-	std::string hn = HostName();
-	c << "object Host \"" << hn << "\" {\n  check_command = \"psdummy\"\n  enable_active_checks = false\n  max_check_attempts = 3\n  check_interval = " << NumStr(l_Ci0) << "\n}\n";
+	for (size_t i = 0; i < l_N; i++)
+		c << "object Host \"" << HostName(i) << "\" {\n  check_command = \"psdummy\"\n  enable_active_checks = false\n  max_check_attempts = 3\n  check_interval = " << NumStr(l_Ci0[i]) << "\n}\n";
 	if (l_WithSvc)
-		c << "object Service \"s\" {\n  host_name = \"" << hn << "\"\n  check_command = \"psdummy\"\n  enable_active_checks = false\n  max_check_attempts = 2\n}\n";
+		c << "object Service \"s\" {\n  host_name = \"" << HostName(0) << "\"\n  check_command = \"psdummy\"\n  enable_active_checks = false\n  max_check_attempts = 2\n}\n";
 	LoadConfig(c.str());
 	ApiListener::UpdateObjectAuthority();
-	l_H = Host::GetByName(hn);
-	if (!l_H) throw std::runtime_error("host not created");
-	if (l_WithSvc) l_S = Service::GetByNamePair(hn, "s");
-	// configuration values that cannot be spelled in config text without going through the writer under test
-	l_H->SetVars(l_Vars0.IsEmpty() ? Dictionary::Ptr() : Dictionary::Ptr(l_Vars0.Clone()), true);
-	l_H->SetNotes(l_Notes0, true);
+	l_Hs.clear();
+	for (size_t i = 0; i < l_N; i++) {
+		Host::Ptr h = Host::GetByName(HostName(i));
+		if (!h) throw std::runtime_error("host not created");
+		// configuration values that cannot be spelled in config text without going through the writer under test
+		h->SetVars(l_Vars0[i].IsEmpty() ? Dictionary::Ptr() : Dictionary::Ptr(l_Vars0[i].Clone()), true);
+		h->SetNotes(l_Notes0[i], true);
+		l_Hs.push_back(h);
+	}
+	l_H = l_Hs[0];
+	if (l_WithSvc) l_S = Service::GetByNamePair(HostName(0), "s");
 }
 
 // ------------------------------------------------------------------ (ii) modify / restore
-static std::string MState(const char *tag, bool ok)
+static std::string MState(const char *tag, bool ok, size_t i = 0)
 {
 	std::ostringstream o;
-	Dictionary::Ptr og = l_H->GetOriginalAttributes();
-	o << tag << " ok=" << (ok ? 1 : 0) << " vars=" << Canon(l_H->GetVars()) << " ci=" << Canon(l_H->GetCheckInterval())
-	  << " notes=" << Canon(l_H->GetNotes()) << " orig=" << (og ? Canon(og) : "N") << " ver=" << NumStr(l_H->GetVersion());
+	const Host::Ptr& h = l_Hs.at(i);
+	Dictionary::Ptr og = h->GetOriginalAttributes();
+	o << tag;
+	if (l_Multi) o << " obj=" << i;
+	o << " ok=" << (ok ? 1 : 0) << " vars=" << Canon(h->GetVars()) << " ci=" << Canon(h->GetCheckInterval())
+	  << " notes=" << Canon(h->GetNotes()) << " orig=" << (og ? Canon(og) : "N") << " ver=" << NumStr(h->GetVersion());
 	return o.str();
 }
 
+// ps_mnew [n=<objects>] vars=.. notes=.. ci=..  [vars1=.. notes1=.. ci1=.. ...]
 VOP(ps_mnew)
 {
 	l_WithSvc = a.num("svc", 0) != 0;
+	l_Multi = a.has("n");
 	l_Slots.clear();
-	l_Vars0 = a.has("vars") ? ParseVal(a.str("vars")) : Value(Empty);
-	l_Notes0 = a.has("notes") ? Value(String(HexDec(a.str("notes")))) : Value(String(""));
-	l_Ci0 = a.has("ci") ? strtod(a.str("ci").c_str(), nullptr) : 300;
+	SetPopulation((size_t)a.num("n", 1));
+	for (size_t i = 0; i < l_N; i++) {
+		std::string sfx = i ? std::to_string(i) : "";
+		l_Vars0[i] = a.has("vars" + sfx) ? ParseVal(a.str("vars" + sfx)) : Value(Empty);
+		l_Notes0[i] = a.has("notes" + sfx) ? Value(String(HexDec(a.str("notes" + sfx)))) : Value(String(""));
+		l_Ci0[i] = a.has("ci" + sfx) ? strtod(a.str("ci" + sfx).c_str(), nullptr) : 300;
+	}
 	Create();
-	Out(MState("mnew", true));
+	for (size_t i = 0; i < l_N; i++) Out(MState("mnew", true, i));
 }
 
 VOP(ps_mod)
 {
 	bool ok = true;
-	try { l_H->ModifyAttribute(HexDec(a.str("path")), ParseVal(a.str("val"))); } catch (const std::exception&) { ok = false; }
-	Out(MState("mod", ok));
+	size_t i = (size_t)a.num("obj", 0);
+	try { l_Hs.at(i)->ModifyAttribute(HexDec(a.str("path")), ParseVal(a.str("val"))); } catch (const std::exception&) { ok = false; }
+	Out(MState("mod", ok, i));
 }
 
 VOP(ps_res)
 {
 	bool ok = true;
-	try { l_H->RestoreAttribute(HexDec(a.str("path"))); } catch (const std::exception&) { ok = false; }
-	Out(MState("res", ok));
+	size_t i = (size_t)a.num("obj", 0);
+	try { l_Hs.at(i)->RestoreAttribute(HexDec(a.str("path"))); } catch (const std::exception&) { ok = false; }
+	Out(MState("res", ok, i));
 }
 
-// DumpModifiedAttributes, then "restart": fresh object from the same configuration, the written file evaluated
-// the way ConfigItem::ActivateItems does it
+// evaluation of modified-attributes.conf the way ConfigItem::ActivateItems does it
+static bool ReplayModAttrs()
+{
+	try {
+		if (Utility::PathExists(Configuration::ModAttrPath)) {
+			std::unique_ptr<Expression> expression = ConfigCompiler::CompileFile(Configuration::ModAttrPath);
+			if (expression) { ScriptFrame frame(true); expression->Evaluate(frame); }
+		}
+	} catch (const std::exception&) { return false; }
+	return true;
+}
+
+// DumpModifiedAttributes, then "restart": fresh objects from the same configuration, the written file evaluated
 VOP(ps_dma)
 {
 	bool ok = true;
@@ -194,20 +282,52 @@ VOP(ps_dma)
 	if (!ok) { Out("dma ok=0"); return; }
 	RemoveAll();
 	Create();
+	ok = ReplayModAttrs();
+	for (size_t i = 0; i < l_N; i++) Out(MState("dma", ok, i));
+}
+
+// the whole stop/start cycle: DumpProgramState (state file + modified-attributes.conf), fresh objects from the same
+// configuration, RestoreObjects, evaluation of modified-attributes.conf (daemoncommand.cpp:289, configitem.cpp:648)
+VOP(ps_restart)
+{
 	try {
-		std::unique_ptr<Expression> expression = ConfigCompiler::CompileFile(Configuration::ModAttrPath);
-		if (expression) { ScriptFrame frame(true); expression->Evaluate(frame); }
-	} catch (const std::exception&) { ok = false; }
-	Out(MState("dma", ok));
+		ConfigObject::DumpObjects(Configuration::StatePath);
+		IcingaApplication::GetInstance()->DumpModifiedAttributes();
+	} catch (const std::exception&) { Out("rst ok=0 dump-throws"); return; }
+	RemoveAll();
+	Create();
+	try { ConfigObject::RestoreObjects(Configuration::StatePath); } catch (const std::exception&) { Out("rst ok=0 restore-throws"); return; }
+	bool ok = ReplayModAttrs();
+	for (size_t i = 0; i < l_N; i++) Out(MState("rst", ok, i));
 }
 
 // ------------------------------------------------------------------ (i) state round trip
+// ps_snew svc=0|1 [n=<hosts>]
 VOP(ps_snew)
 {
 	l_WithSvc = a.num("svc", 0) != 0;
-	l_Vars0 = Empty; l_Notes0 = String(""); l_Ci0 = 300;
+	l_Multi = false;
+	SetPopulation((size_t)a.num("n", 1));
 	Create();
 	l_Slots.clear();
+}
+
+// a check result on EVERY host of the population, the output derived from the index (many objects in one state file)
+VOP(ps_crall)
+{
+	double now = Utility::GetTime();
+	size_t len = (size_t)a.num("outlen", 20);
+	for (size_t i = 0; i < l_Hs.size(); i++) {
+		CheckResult::Ptr cr = new CheckResult();
+		cr->SetState((ServiceState)((i + a.num("state", 1)) % 4));
+		cr->SetScheduleStart(now); cr->SetScheduleEnd(now); cr->SetExecutionStart(now); cr->SetExecutionEnd(now);
+		std::string o = "out-" + std::to_string(i) + " ";
+		while (o.size() < len) o += (char)('a' + i % 26);
+		cr->SetOutput(o);
+		cr->SetPerformanceData(new Array({ String("i=" + std::to_string(i)) }));
+		l_Hs[i]->ProcessCheckResult(cr);
+	}
+	Out("crall n=" + std::to_string(l_Hs.size()));
 }
 
 static Checkable::Ptr On(const Args& a) { return a.str("on", "host") == "svc" ? Checkable::Ptr(l_S) : Checkable::Ptr(l_H); }
@@ -222,7 +342,7 @@ VOP(ps_cr)
 	cr->SetState((ServiceState)a.num("state"));
 	cr->SetScheduleStart(now); cr->SetScheduleEnd(now); cr->SetExecutionStart(now); cr->SetExecutionEnd(now);
 	cr->SetActive(a.num("active", 1) != 0);
-	cr->SetOutput(HexDec(a.str("out", "-")));
+	cr->SetOutput(StrArg(a.str("out", "-")));
 	if (a.has("cmd")) cr->SetCommand(ParseVal(a.str("cmd")));
 	if (a.has("perf")) cr->SetPerformanceData(ParseVal(a.str("perf")));
 	auto res = target->ProcessCheckResult(cr);
@@ -288,19 +408,34 @@ static void Diff(const std::string& pfx, const Dictionary::Ptr& b, const Diction
 VOP(ps_dumprestore)
 {
 	std::string file = ScratchDir() + "/data/icinga2.state";
-	Dictionary::Ptr bh = Serialize(l_H, FAState), bs = l_S ? Dictionary::Ptr(Serialize(l_S, FAState)) : nullptr;
+	std::vector<Dictionary::Ptr> bh, fh, ah;
+	for (const Host::Ptr& h : l_Hs) bh.push_back(Serialize(h, FAState));
+	Dictionary::Ptr bs = l_S ? Dictionary::Ptr(Serialize(l_S, FAState)) : nullptr;
 	ConfigObject::DumpObjects(file);
 	RemoveAll();
 	Create();
-	ConfigObject::RestoreObjects(file);
-	Dictionary::Ptr ah = Serialize(l_H, FAState), as = l_S ? Dictionary::Ptr(Serialize(l_S, FAState)) : nullptr;
+	for (const Host::Ptr& h : l_Hs) fh.push_back(Serialize(h, FAState));
+	Dictionary::Ptr fs = l_S ? Dictionary::Ptr(Serialize(l_S, FAState)) : nullptr;
+	bool threw = false;
+	try { ConfigObject::RestoreObjects(file); } catch (const std::exception&) { threw = true; }
+	for (const Host::Ptr& h : l_Hs) ah.push_back(Serialize(h, FAState));
+	Dictionary::Ptr as = l_S ? Dictionary::Ptr(Serialize(l_S, FAState)) : nullptr;
 	std::vector<std::string> diff;
-	Diff("host.", bh, ah, diff);
-	if (l_S) Diff("svc.", bs, as, diff);
+	if (threw) diff.push_back("RESTORE-THROWS");
+	// an object none of whose state came back (its record was not read) is reported as "<object>.*"
+	auto one = [&diff](const std::string& pfx, const Dictionary::Ptr& b, const Dictionary::Ptr& f, const Dictionary::Ptr& af) {
+		std::vector<std::string> d, lost;
+		Diff(pfx, b, af, d);
+		if (d.empty()) return;
+		Diff(pfx, f, af, lost);
+		if (lost.empty()) diff.push_back(pfx + "*"); else diff.insert(diff.end(), d.begin(), d.end());
+	};
+	for (size_t i = 0; i < l_Hs.size(); i++) one(i ? "h" + std::to_string(i) + "." : "host.", bh[i], fh[i], ah[i]);
+	if (l_S) one("svc.", bs, fs, as);
 	std::string d;
 	for (auto& x : diff) { if (!d.empty()) d += ","; d += x; }
 	Out(std::string("rt all=") + (diff.empty() ? "1" : "0") + " diff=" + (d.empty() ? "-" : d));
-	for (auto& s : l_Slots) Out("slot " + s + " " + Canon(SlotGet(s)));
+	for (auto& sl : l_Slots) Out("slot " + sl + " " + Canon(SlotGet(sl)));
 }
 
 // ------------------------------------------------------------------ (iii) the three persisting writes
@@ -311,21 +446,34 @@ static std::string FinalPath(const std::string& what, const std::string& scratch
 	return scratch + "/data/api/packages/_api";   // prefix; the file is <stage>/conf.d/hosts/psrt.conf
 }
 
-// executed in the child: do the persisting write once
+// executed in the child: do the persisting write once; a write that throws (injected ENOSPC, EIO ...) is reported, the
+// process goes on as the daemon does (the callers of DumpProgramState log the exception)
 VOP(ps_persist)
 {
 	std::string what = a.str("what");
-	if (what == "state") ConfigObject::DumpObjects(Configuration::StatePath);
-	else if (what == "modattr") IcingaApplication::GetInstance()->DumpModifiedAttributes();
-	else {
-		Array::Ptr errors = new Array();
-		Dictionary::Ptr vars = new Dictionary(); vars->Set("k", String(a.str("tag", "v")));
-		Dictionary::Ptr attrs = new Dictionary(); attrs->Set("check_command", "psdummy"); attrs->Set("vars", vars);
-		String cfg = ConfigObjectUtility::CreateObjectConfig(Host::TypeInstance, "psrt", false, nullptr, attrs);
-		if (!ConfigObjectUtility::CreateObject(Host::TypeInstance, "psrt", cfg, errors, nullptr))
-			throw std::runtime_error("CreateObject failed");
-	}
-	Out("persist " + what);
+	bool threw = false;
+	try {
+		if (what == "state") ConfigObject::DumpObjects(Configuration::StatePath);
+		else if (what == "modattr") IcingaApplication::GetInstance()->DumpModifiedAttributes();
+		else {
+			Array::Ptr errors = new Array();
+			Dictionary::Ptr vars = new Dictionary(); vars->Set("k", String(a.str("tag", "v")));
+			Dictionary::Ptr attrs = new Dictionary(); attrs->Set("check_command", "psdummy"); attrs->Set("vars", vars);
+			String cfg = ConfigObjectUtility::CreateObjectConfig(Host::TypeInstance, "psrt", false, nullptr, attrs);
+			if (!ConfigObjectUtility::CreateObject(Host::TypeInstance, "psrt", cfg, errors, nullptr))
+				threw = true;
+		}
+	} catch (const std::exception&) { threw = true; }
+	Out("persist " + what + (threw ? " threw" : ""));
+}
+
+// executed in the child: copy the final file as it is now
+VOP(ps_keep)
+{
+	std::string fin = a.str("what") == "state" ? Configuration::StatePath.GetData() : Configuration::ModAttrPath.GetData();
+	std::ifstream in(fin, std::ios::binary);
+	if (in) { std::ofstream o(fin + "." + a.str("as"), std::ios::binary); o << in.rdbuf(); }
+	Out("keep");
 }
 
 VOP(ps_mark) { (void)unlink("/nonexistent/verif-mark"); Out("mark"); }
@@ -352,15 +500,21 @@ static std::string ObjCfgFile(const std::string& scratch)
 	return found;
 }
 
-static std::string ChildScript(const std::string& what, bool first, bool second, const std::string& dir, const std::string& name)
+// fault = true: after the write under test the child keeps a copy of the final file ("<final>.after"), repeats the write
+// undisturbed (the injection is one-shot) and keeps that too ("<final>.clean"): the reference for "complete new
+// version" then comes from the very same process state (the state file contains scheduling offsets drawn at random)
+static std::string ChildScript(const std::string& what, bool first, bool second, const std::string& dir, const std::string& name, bool fault = false)
 {
 	std::string p = dir + "/" + name;
 	std::ofstream f(p);
 	f << "now 2000000100\ncase 1\nps_mnew vars=M(61:D1) svc=1\nps_mod path=766172732e61 val=D2\nps_cr on=host state=2 out=6f6c64\n";
 	if (first) f << "ps_persist what=" << what << " tag=old\n";
-	f << "now 2000000200\nps_cr on=svc state=1 out=6e6577\nps_mod path=766172732e62 val=S6e6577\nps_mark\n";
+	// the new version is several stream buffers long: the write window has several write(2) calls
+	f << "now 2000000200\nps_cr on=svc state=1 out=R20000x6e6577\nps_mod path=766172732e62 val=S6e6577\nps_mark\n";
 	if (second) f << "ps_persist what=" << what << " tag=new\n";
-	f << "ps_mark\nend\n";
+	f << "ps_mark\n";
+	if (fault && what != "objcfg") f << "ps_keep what=" << what << " as=after\nps_persist what=" << what << " tag=new\nps_keep what=" << what << " as=clean\n";
+	f << "end\n";
 	return p;
 }
 
@@ -485,26 +639,34 @@ static std::pair<long, long> CallCounts(const std::string& what, const std::stri
 	return cache[what + "/" + call] = std::make_pair(base, total);
 }
 
-// ps_kill what=... call=<syscall> n=<k> : SIGKILL at the k-th <call> of the second write, the old version being on disk;
-// afterwards the final file must be byte-identical to the old or the new version and loadable
-VOP(ps_kill)
+// SIGKILL or an injected error at the k-th <call> of the second write, the old version being on disk; afterwards the
+// final file must be byte-identical to the old or the new version and loadable
+static void Injected(const Args& a, const char *tag, const std::string& inject, bool fault = false)
 {
 	std::string what = a.str("what"), call = a.str("call");
 	bool objcfg = what == "objcfg";
 	PsRef& r = Ref(what);
 	auto cnt = CallCounts(what, call);
 	long n = a.num("n");
-	if (n > cnt.second) { Out("kill beyond"); return; }
+	if (n > cnt.second) { Out(std::string(tag) + " beyond"); return; }
 	static long l_KillSeq = 0;
 	std::string dir = ScratchDir() + "/k" + std::to_string(CaseId()) + "_" + what + "_" + call + std::to_string(n) + "_" + std::to_string(++l_KillSeq);
 	Utility::MkDirP(dir, 0700);
 	PlaceOld(what, dir + "/s");
-	std::string script = ChildScript(what, false, true, dir, "kill.script");
-	int rc = RunChild(dir + "/s", script, "strace -f -o /dev/null -e trace=" + call + " -e inject=" + call + ":signal=KILL:when=" + std::to_string(cnt.first + n));
+	std::string script = ChildScript(what, false, true, dir, "kill.script", fault);
+	int rc = RunChild(dir + "/s", script, "strace -f -o /dev/null -e trace=" + call + " -e inject=" + call + ":" + inject + ":when=" + std::to_string(cnt.first + n));
 	bool exists = false;
 	std::string fin = objcfg ? ObjCfgFile(dir + "/s") : FinalPath(what, dir + "/s");
+	std::string newC = r.newC;
+	if (fault && !objcfg) {
+		// the file as the faulted write left it, and the same process's undisturbed write as the reference
+		bool e2 = false;
+		newC = ReadFile(fin + ".clean", e2);
+		if (!e2) { Out(std::string(tag) + " ok=0 loadable=0 killed=" + (rc != 0 ? "1" : "0") + " finished=0 which=no-reference"); return; }
+		fin = fin + ".after";
+	}
 	std::string got = fin.empty() ? std::string() : ReadFile(fin, exists);
-	std::string which = !exists ? "absent" : (got == r.newC ? "new" : (r.oldExists && got == r.oldC ? "old" : "other"));
+	std::string which = !exists ? "absent" : (got == newC ? "new" : (r.oldExists && got == r.oldC ? "old" : "other"));
 	bool ok = which == "new" || which == "old" || (which == "absent" && !r.oldExists);
 	bool loadable = true;
 	if (exists) {
@@ -513,8 +675,19 @@ VOP(ps_kill)
 			else { std::unique_ptr<Expression> ex = ConfigCompiler::CompileFile(fin); }
 		} catch (const std::exception&) { loadable = false; }
 	}
-	Out(std::string("kill ok=") + (ok ? "1" : "0") + " loadable=" + (loadable ? "1" : "0") + " killed=" + (rc != 0 ? "1" : "0") + " which=" + which);
+	// did the child come to its end (second mark) - a fault must not take the process down
+	bool finished = false;
+	{ std::ifstream f(script + ".out"); std::string line; int marks = 0; while (std::getline(f, line)) if (line == "mark") marks++; finished = marks >= 2; }
+	Out(std::string(tag) + " ok=" + (ok ? "1" : "0") + " loadable=" + (loadable ? "1" : "0") + " killed=" + (rc != 0 ? "1" : "0") +
+		" finished=" + (finished ? "1" : "0") + " which=" + which);
 }
+
+// ps_kill what=... call=<syscall> n=<k>
+VOP(ps_kill) { Injected(a, "kill", "signal=KILL"); }
+
+// ps_fault what=... call=<syscall> n=<k> err=<ERRNO> : the k-th <call> of the write window fails with <ERRNO> (disk full,
+// I/O error, quota ...); the process goes on; the file must be the complete old or the complete new version
+VOP(ps_fault) { Injected(a, "fault", "error=" + a.str("err", "ENOSPC"), true); }
 
 static struct PsCaseEnd {
 	PsCaseEnd() {
